@@ -70,6 +70,9 @@ func runRuntime(prop, tier string) int {
 	nb := 1
 	if tier == "thorough" {
 		nb = 6
+		if prop == "C05" || prop == "C06" {
+			nb = 3 // three builds per batch and schedule enumeration: keep the thorough tier around a quarter of an hour
+		}
 	}
 	if v := os.Getenv("VERIF_BATCHES"); v != "" {
 		fmt.Sscan(v, &nb)
@@ -351,7 +354,7 @@ func checkHistories(run *evid.Run, agg *rtAgg, tier string) {
 func runDFSMode(run *evid.Run, prop string, b *rt.Batch, agg *rtAgg, shapes map[string]rt.MockSpec, seed int64, tier string) {
 	pick, maxexec := 6, 1500
 	if tier == "thorough" {
-		pick, maxexec = 24, 20000
+		pick, maxexec = 10, 5000
 	}
 	rr := rt.Run(b.Bins["isync"], []string{"dfs", fmt.Sprint(seed), fmt.Sprintf("pick=%d", pick), fmt.Sprintf("maxexec=%d", maxexec)}, nil, 30*time.Minute)
 	handleRun(run, prop, b, rr, agg, "dfs", shapes, nil)
